@@ -1,9 +1,9 @@
 CONSTANTS
-  ProtoIdx = {}
+  ProtoIdx = {0, 2}
   Literals <- LitQuick
   ExploreOps <- ExploreCore
   ProbeOps <- ProbeQuick
-  Depth = 1
+  Depth = 2
   GetterCap = 4
   Emit = TRUE
   SetLengthGuard = TRUE
